@@ -19,7 +19,10 @@ Open Scope Z_scope.
 Inductive case :=
 | FDial (ps0 : list rp) (sup : list Z) (rnd : bool) (scid : string)
         (keys0 : list (Z * string)) (exts0 : list Z)
-        (wire : list (Z * string)) (wkeys : list (Z * Z * string)) (wexts : list Z).
+        (wire : list (Z * string)) (wkeys : list (Z * Z * string)) (wexts : list Z)
+(* a dial of a fresh built-in spec: index of the QUICID in the generated table
+   [uspec_builtin_tp], and extension 57 as read off the wire (unmasked) *)
+| FBuiltin (q : Z) (wire : list (Z * string)).
 
 (** multiset equality of parameter lists *)
 Definition pv_eqb (a b : Z * list Z) : bool := (fst a =? fst b) && zeqb_list (snd a) (snd b).
@@ -66,6 +69,15 @@ Fixpoint fkeys_eqb (spec : list (Z * string)) (m : list keyshare) (w : list (Z *
   | _, _, _ => false
   end.
 
+(** what the reference fingerprinter's transport-parameter hash can see of one parameter: the id
+    with GREASE folded, and the value only for the eleven ids it hashes *)
+Definition fp_proj (p : Z * list Z) : Z * list Z :=
+  (fp_canon (fst p), if existsb (Z.eqb (fst p)) fp_ids11 then snd p else []).
+Definition builtin_tp (q : Z) : list (Z * list Z) :=
+  map (fun p => (fst p, hx (snd p))) (nth (Z.to_nat q) uspec_builtin_tp []).
+Definition builtin_check (q : Z) (w : list (Z * list Z)) : bool :=
+  (0 <=? q) && (q <? Z.of_nat (List.length uspec_builtin_tp)) && perm_eqb (map fp_proj w) (builtin_tp q).
+
 Definition wire_of (l : list (Z * string)) : list (Z * list Z) := map (fun p => (fst p, hx (snd p))) l.
 
 (** the model's view of one dial, without the shuffle *)
@@ -79,18 +91,24 @@ Definition model_dial (ps0 : list rp) (sup : list Z) (scid : string) (keys0 : li
 
 Inductive obs := OFp (tp : list (Z * list Z)) (keys : list keyshare) | ONone.
 Definition model_obs (c : case) : obs :=
-  let '(FDial ps0 sup _ scid keys0 _ _ wk _) := c in
-  match model_dial ps0 sup scid keys0 (List.length wk) with
-  | Some (l, ks) => OFp l ks
-  | None => ONone
+  match c with
+  | FDial ps0 sup _ scid keys0 _ _ wk _ =>
+    match model_dial ps0 sup scid keys0 (List.length wk) with
+    | Some (l, ks) => OFp l ks
+    | None => ONone
+    end
+  | FBuiltin q _ => OFp (builtin_tp q) []
   end.
 
 Definition check_case (c : case) : bool :=
-  let '(FDial ps0 sup rnd scid keys0 exts0 wire wk wexts) := c in
+  match c with
+  | FBuiltin q wire => builtin_check q (wire_of wire)
+  | FDial ps0 sup rnd scid keys0 exts0 wire wk wexts =>
   match model_obs c with
   | OFp l ks =>
     (if rnd then perm_eqb l (wire_of wire) else list_eqb l (wire_of wire)) &&
     (match keys0, wk with [], [] => true | _, _ => fkeys_eqb keys0 ks wk end) &&
     exts_match exts0 wexts
   | ONone => false
+  end
   end.
